@@ -118,6 +118,11 @@ func TestC14Extra(t *testing.T) {
 					rep.Inconc("open sparse file: " + e.Error())
 				} else {
 					steps = nil
+					if d, e := cn.Clnt.FStat(big); e != nil {
+						fail("large-file-length", fmt.Sprintf("FStat of a file of %d bytes fails: %v", size, e))
+					} else if int64(d.Length) != size {
+						fail("large-file-length", fmt.Sprintf("FStat of a file of %d bytes reports length %d", size, d.Length))
+					}
 					twin, _ := os.Open(bpath)
 					chk := func(o int64, cnt int) {
 						want := make([]byte, cnt)
